@@ -55,15 +55,14 @@ pub trait StateApi: 'static {
 
 pub struct BorrowedState<M>(std::marker::PhantomData<M>);
 impl<M: RawMutex + 'static> StateApi for BorrowedState<M> {
-    type Root = Box<GenericStateBroadcastChannel<M, Val>>;
+    type Root = Owned<GenericStateBroadcastChannel<M, Val>>;
     type Tx = &'static GenericStateBroadcastChannel<M, Val>;
     type Rx = &'static GenericStateBroadcastChannel<M, Val>;
     type Obs = &'static GenericStateBroadcastChannel<M, Val>;
     type Fut = StateReceiveFuture<'static, M, Val>;
     const SHARED: bool = false;
     fn create() -> (Self::Root, Self::Tx, Self::Rx, Self::Obs) {
-        let b = Box::new(GenericStateBroadcastChannel::<M, Val>::new());
-        let r: &'static GenericStateBroadcastChannel<M, Val> = unsafe { &*(&*b as *const _) };
+        let (b, r) = Owned::new(GenericStateBroadcastChannel::<M, Val>::new());
         (b, r, r, r)
     }
     fn clone_tx(t: &Self::Tx) -> Self::Tx {
@@ -628,7 +627,10 @@ impl<A: StateApi> World for StateWorld<A> {
                         self.txs[0] = None;
                         self.rxs[0] = None;
                     }
-                    let obs = self.obs.take();
+                    // borrowed flavours: `obs` is a plain reference into the root; it must not be
+                    // alive (not even captured) while the root is freed
+                    let obs = if A::SHARED { self.obs.take() } else { None };
+                    self.obs = None;
                     let root = self.root.take();
                     env.call("drop channel", || {
                         drop(obs);
